@@ -224,5 +224,6 @@ def check(ctx, rep):
     unwrap_sites(ctx, rep, 'C03e')
     definition_pairing(ctx, rep, 'C03f')
     C10.dispatch_parity(ctx, rep, 'C03h')
+    C10.ambiguous_tokens(ctx, rep, 'C03g')
     from .common import memo_rule
     memo_rule(ctx, rep, 'C03i', ('peptacular.mass_calc', 'peptacular.chem.chem_calc', 'peptacular.chem.chem_util'))
